@@ -5108,6 +5108,50 @@ where
     where
         K::Scalar: ScalarSummable,
     {
+        if self
+            .tri
+            .tds
+            .vertex_key_from_uuid(&vertex.uuid())
+            .is_none()
+        {
+            return Ok(0);
+        }
+
+        // Transactional guard: the inverse k=1 fast path, the fan retriangulation and the
+        // follow-up flip repair can each fail after mutating, and fan retriangulation around a
+        // hull vertex can "succeed" with a complex that is no longer a valid triangulation
+        // (isolated vertices, disconnected cells).  Snapshot first; keep the result only if it
+        // still passes Level 3 validation (or no cells remain), otherwise roll back and report Err.
+        let snapshot = (
+            self.tri.tds.clone(),
+            self.insertion_state,
+            self.spatial_index.clone(),
+        );
+
+        let result = self.remove_vertex_unguarded(vertex).and_then(|cells_removed| {
+            if self.tri.tds.number_of_cells() > 0 {
+                self.tri.is_valid()?;
+            }
+            Ok(cells_removed)
+        });
+
+        if result.is_err() {
+            let (tds, insertion_state, spatial_index) = snapshot;
+            self.tri.tds = tds;
+            self.insertion_state = insertion_state;
+            self.spatial_index = spatial_index;
+        }
+        result
+    }
+
+    /// Removal steps of [`Self::remove_vertex`] without the transactional guard.
+    fn remove_vertex_unguarded(
+        &mut self,
+        vertex: &Vertex<K::Scalar, U, D>,
+    ) -> Result<usize, TriangulationValidationError>
+    where
+        K::Scalar: ScalarSummable,
+    {
         let Some(vertex_key) = self.tri.tds.vertex_key_from_uuid(&vertex.uuid()) else {
             return Ok(0);
         };
